@@ -31,6 +31,11 @@
 
 // память для блобов выделяется страницами
 #define BLOB_PAGE_SIZE 1024
+#ifdef BEE2_VERIF
+// verification hook: exact-size blobs (no page slack)
+#undef BLOB_PAGE_SIZE
+#define BLOB_PAGE_SIZE 1
+#endif
 
 // требуется страниц
 #define blobPageCount(size)\
